@@ -64,6 +64,11 @@ CHECKS.update({
         text="Exploration. Hundreds of thousands of generated pairs/triples of terms (60% near-equal: same string in another kind, language tags differing in case, other lexical form of one value, xsd:string vs plain) are checked against the laws themselves: == is reflexive/symmetric/transitive and agrees with the framework's own (kind, lexical, datatype, lower(lang)) key, equal terms hash alike and collapse in sets, dict keys and a Graph, cross-kind order is bnode<variable<IRI<literal, IRIs/bnodes order as strings, sorted() of mixed collections never raises and is reproducible over permutations; every term survives copy, deepcopy, pickle (all protocols) and NodePickler unchanged, and its n3() text is read back as the same term by from_n3, the Turtle parser and the SPARQL parser.",
         note="Literal-vs-literal order is only required not to raise. For literals built with normalize=False the text read-back is judged against the normalised literal (documented construction-time normalisation).",
         ref="DESIGN.md §3 C07"),
+    "C08": dict(
+        technique="runtime monitoring: differential against the reference SELECT evaluator for the multiset, plus an all-pairs order monitor and a slice monitor over the sequence the engine returns",
+        text="Exploration. Generated SELECT queries over a pattern with an OPTIONAL (so keys can be unbound) under every combination of DISTINCT/REDUCED, ORDER BY with 1-3 ASC/DESC keys (variables and expressions, mixed term kinds, ties, unbound), LIMIT/OFFSET, projection expressions, GROUP BY on variables and expressions, the seven aggregates with and without DISTINCT, COUNT(*), HAVING, the implicit group and empty input. (1) the multiset of rows equals the reference's (rv/model/sparqlref.eval_select), with SAMPLE checked for membership and GROUP_CONCAT as a multiset of parts; (2) for every pair of rows i<j of the returned sequence the first sort key on which SPARQL defines an order must not put j before i; (3) LIMIT/OFFSET must return exactly that slice of the engine's own unsliced sequence with the right length; (4) the result variables are exactly the projected ones. Five listed aggregate findings plus the expression-level findings of C04 are carved out by input predicates computed on the reference's view of the groups.",
+        note="MIN/MAX over values whose relative order SPARQL leaves open, and ties between equal values of different datatypes, are dropped as latitude.",
+        ref="DESIGN.md §3 C08"),
     "C09": dict(
         technique="runtime monitoring: differential against an independent XSD 1.1 reference (lexical grammars + lexical->value maps) over generated Python values and grammar-generated lexical forms",
         text="Exploration. (py) generated Python ints, floats from random bit patterns, Decimals, bools, strs, dates, times, datetimes with every whole-minute offset, timedeltas and Durations go through Literal(v): documented datatype, lexical form accepted by the reference grammar, toPython() equal and of the same type. (lex) grammar-generated valid forms for each of the 30 recognised XSD datatypes: not flagged ill-typed, value equals the reference value, normalised form valid / same value / idempotent (constructor and normalize()). (eq) eq() against Python equality of the mapped values inside a value family, and term equality implies eq. (ill) invalid forms must not crash. Six listed findings (datetime range limits, 24:00:00, >6 fraction digits, xsd:date time zones, zero yearMonthDuration, negative mixed durations) are carved out by input predicates.",
